@@ -135,7 +135,7 @@ def execute_scripted(subject, script, shots="subject", simcls=None, program=None
         _random.seed(12345)
         np.random.seed(12345)
         try:
-            prog = program if program is not None else spec.build_program(subject["program"])
+            prog = program if program is not None else spec.build_program(subject["program"], subject.get("build", "list"))
             base = simcls or spec.simulator_class(subject["sim"])
             cls = ins.instrumented_class(base, mon)
             sim = cls(d=subject["d"], config=spec.build_config(subject.get("config", {})))
